@@ -24,6 +24,8 @@ pub enum Case
     Bytes { data: Vec<u8> },
     /// a valid history file with its leading length field replaced
     HugeCount { entries: Vec<u32>, targets: u8, count: u64, which: u8 },
+    /// a saved libFuzzer input of the state target (hex)
+    FuzzBytes { hex: String },
 }
 
 fn ticket(seed: u32) -> Ticket
@@ -189,6 +191,29 @@ pub fn check(c: &Case, stats: &mut Stats) -> Result<(), String>
             let _ = read_table_bytes(data)?;
             Ok(())
         }
+        Case::FuzzBytes { hex } =>
+        {
+            let data = crate::verif::fuzzrun::unhex(hex);
+            if let Ok(rh) = read_history_bytes(&data)?
+            {
+                // accepted: well-formed (round-trips) and none of its own strict prefixes is accepted
+                let bytes = bincode::serialize(&rh).map_err(|e| format!("accepted history does not serialise: {}", e))?;
+                match read_history_bytes(&bytes)?
+                {
+                    Ok(back) => if back != rh { return Err("an accepted history is not stable under a round trip".to_string()); },
+                    Err(e) => return Err(format!("an accepted history does not read back: {}", e)),
+                }
+                for n in 0..bytes.len().min(256)
+                {
+                    if read_history_bytes(&bytes[..n])?.is_ok()
+                    {
+                        return Err(format!("a strict prefix ({} of {} bytes) of a valid rule-history file was accepted", n, bytes.len()));
+                    }
+                }
+            }
+            let _ = read_table_bytes(&data)?;
+            Ok(())
+        }
         Case::HugeCount { entries, targets, count, which } =>
         {
             let rh = make_history(entries, *targets);
@@ -232,6 +257,7 @@ pub fn test_case(c: &Case, stats: &mut Stats) -> Result<(), String>
         Case::Table { entries, .. } => ("table", entries.len() >= 2),
         Case::Bytes { data } => ("bytes", data.len() >= 8),
         Case::HugeCount { .. } => ("huge-count", true),
+        Case::FuzzBytes { .. } => ("fuzz-input", true),
     };
     stats.class(class);
     if nt
@@ -253,6 +279,23 @@ pub fn run(ctx: &Ctx) -> Report
     rep.assume("a flipped payload bit may decode to well-formed different data; only panics and accepted strict prefixes are violations there");
     let cases = ctx.tier.pick(6000u32, 80000);
     rep.absorb(drive::drive(ctx, 16, cases, strategy, test_case));
+    if ctx.tier == crate::verif::drive::Tier::Thorough
+    {
+        let o = crate::verif::fuzzrun::run_target(ctx, "state", 600_000, 12, 512);
+        crate::verif::fuzzrun::record(&mut rep.stats, &o, "state");
+        rep.stats.evaluations += o.runs;
+        for c in o.crashes.iter()
+        {
+            let case = Case::FuzzBytes { hex: crate::verif::fuzzrun::hex(c) };
+            let mut st = Stats::default();
+            match crate::verif::sched::catch_quiet(|| check(&case, &mut st))
+            {
+                Ok(Ok(())) => { rep.stats.class("libfuzzer-crash-not-confirmed-in-process"); eprintln!("libFuzzer saved an input that the in-process oracle accepts; not reported"); }
+                Ok(Err(m)) => rep.failures.push(drive::Failure { reason: m, case: json!(case) }),
+                Err(m) => rep.failures.push(drive::Failure { reason: format!("panic in the code under test: {}", m), case: json!(case) }),
+            }
+        }
+    }
     rep
 }
 
